@@ -99,7 +99,7 @@ fn cases(tier: Tier) -> Vec<Case> {
         }
     }
     // sequential history passes (relation code 100: first order, 101: second order)
-    for rel in [100u8, 101, 102, 103, 104] {
+    for rel in [100u8, 101, 102, 103, 104, 105] {
         out.push(Case { nuni: 4, a: NumSpec::constant(1.5), b: NumSpec::constant(-2.5), storage: 0, large: Some((0, rel)) });
     }
     out
@@ -458,6 +458,75 @@ fn check_sequence(second: bool, case: &Case, idx: u64, acc: &mut Acc) {
     acc.sample(cj);
 }
 
+/// names whose TEXT runs together alike ("ab"+"c" = "a"+"bc", "k1"+"0" = "k"+"10"): one after the other on one thread,
+/// every ordered pair of two-name lists over such names is combined; and a number compared with ITSELF answers as it
+/// does against its own clone (also when it holds a NaN)
+fn check_name_text(case: &Case, idx: u64, acc: &mut Acc) {
+    use rateslib::dual::{Gradient1, Gradient2};
+    let cj = || serde_json::to_value(case).unwrap();
+    let pool = ["ab", "c", "a", "bc", "k1", "0", "k", "10", "abc", "z"];
+    let gof = |name: &str, side: usize| 0.5 + (name.len() as f64) * 0.25 + (name.bytes().map(|b| b as usize).sum::<usize>() % 7) as f64 * 0.125 + side as f64;
+    let mut lists: Vec<Vec<&str>> = vec![];
+    for a in pool.iter() {
+        lists.push(vec![*a]);
+        for b in pool.iter() {
+            if a != b {
+                lists.push(vec![*a, *b]);
+            }
+        }
+    }
+    acc.nontrivial();
+    for la in lists.iter() {
+        for lb in lists.iter() {
+            acc.evals_add(2);
+            let a = Dual2::try_new(1.5, la.iter().map(|s| s.to_string()).collect(), la.iter().map(|n| gof(n, 0)).collect(), vec![]).unwrap();
+            let b = Dual2::try_new(-2.5, lb.iter().map(|s| s.to_string()).collect(), lb.iter().map(|n| gof(n, 1)).collect(), vec![]).unwrap();
+            let all: Vec<String> = pool.iter().map(|s| s.to_string()).collect();
+            let (sum, prod) = (&a + &b, &a * &b);
+            let (gs, gp, hp) = (sum.gradient1(all.clone()), prod.gradient1(all.clone()), prod.gradient2(all.clone()));
+            let union: std::collections::BTreeSet<&str> = la.iter().chain(lb.iter()).cloned().collect();
+            let mut bad = sum.vars().len() != union.len() || prod.vars().len() != union.len();
+            for (i, n) in pool.iter().enumerate() {
+                let (ga, gb) = (if la.contains(n) { gof(n, 0) } else { 0.0 }, if lb.contains(n) { gof(n, 1) } else { 0.0 });
+                if gs[i] != ga + gb || !close_scaled(gp[i], ga * -2.5 + gb * 1.5, 1e-13, 4.0) {
+                    bad = true;
+                }
+                for (j, m) in pool.iter().enumerate() {
+                    let (gaj, gbj) = (if la.contains(m) { gof(m, 0) } else { 0.0 }, if lb.contains(m) { gof(m, 1) } else { 0.0 });
+                    if !close_scaled(hp[[i, j]], ga * gbj + gaj * gb, 1e-13, 8.0) {
+                        bad = true;
+                    }
+                }
+            }
+            if bad {
+                acc.violate("name-text/after-other-lists", idx, cj(), json!({"left": la, "right": lb}), json!(format!("{:?} / {:?}", sum.vars(), gs)));
+                return;
+            }
+        }
+    }
+    // identity does not matter for ==
+    for nan_at in 0..4usize {
+        acc.eval();
+        let mut g = vec![1.5, -0.5];
+        let mut h = vec![0.25, 0.125, 0.125, 0.5];
+        match nan_at {
+            1 => g[1] = f64::NAN,
+            2 => h[1] = f64::NAN,
+            _ => {}
+        }
+        let v = if nan_at == 3 { f64::NAN } else { 0.75 };
+        let d1 = Dual::try_new(v, vec!["x".into(), "y".into()], g.clone()).unwrap();
+        let d2 = Dual2::try_new(v, vec!["x".into(), "y".into()], g.clone(), h.clone()).unwrap();
+        let (c1, c2) = (d1.clone(), d2.clone());
+        #[allow(clippy::eq_op)]
+        let (s1, s2) = (d1 == d1, d2 == d2);
+        if s1 != (d1 == c1) || s2 != (d2 == c2) {
+            acc.violate("eq/self-versus-clone", idx, cj(), json!({"nan_at": nan_at, "against_clone": [d1 == c1, d2 == c2]}), json!([s1, s2]));
+        }
+    }
+    acc.sample(cj);
+}
+
 /// sizes beyond the dense reference: a first-order pair on 66 000 names (positions past 65 535) and a second-order
 /// pair on 1 100 names (past 1 024, not a multiple of 64); expected entries are computed name by name on the fly
 fn check_huge(second: bool, case: &Case, idx: u64, acc: &mut Acc) {
@@ -640,6 +709,10 @@ fn check_differential(case: &Case, idx: u64, acc: &mut Acc) {
 pub fn check(case: &Case, idx: u64, acc: &mut Acc) {
     if let Some((_, 102)) = case.large {
         check_differential(case, idx, acc);
+        return;
+    }
+    if let Some((_, 105)) = case.large {
+        check_name_text(case, idx, acc);
         return;
     }
     if let Some((_, rel @ (103 | 104))) = case.large {
@@ -1003,7 +1076,7 @@ pub fn run(ctx: &Ctx, replay_file: Option<String>) -> ! {
          are a function of the NAME (never of the position), so all list permutations of the same number are covered. \
          Non-trivial: pairs whose vars_cmp class (observed through the public vars_cmp) is not ArcEquivalent; the run \
          refuses to report if any of the five classes or the 'equal pair' class is empty. Oracle: by-name RefDual \
-         result, union of names each once, matching shapes, == iff equal by name with missing == 0, also when a zero derivative is written -0.0 (negative-zero twin of every operand that has a zero entry). Non-standard memory layouts: every operand is also built through clone_from with a reversed-memory gradient and a column-major second-derivative array and must equal its standard form, compare with the other operand as that does, and add / multiply to the by-name reference. The re-alignment entry points (to_union_vars, to_combined_vars, to_new_vars onto a covering list, new_from) leave every number unchanged by name on one shared list. Layout differential: five derivative tables (products near the largest double, subnormal products, ordinary, mixed, signed zeros) combined under five layouts (shared list, separate, re-ordered, extra zero-derivative name, both) must give bit-identical results by name for + - * /, the stored half-Hessian included. History independence: on one thread the 65 x 65 ordered pairs of layouts over 4 names are combined (+, *, /, ==) one after the other, forwards and backwards, each operand built fresh. In addition a \
+         result, union of names each once, matching shapes, == iff equal by name with missing == 0, also when a zero derivative is written -0.0 (negative-zero twin of every operand that has a zero entry). Non-standard memory layouts: every operand is also built through clone_from with a reversed-memory gradient and a column-major second-derivative array and must equal its standard form, compare with the other operand as that does, and add / multiply to the by-name reference. The re-alignment entry points (to_union_vars, to_combined_vars, to_new_vars onto a covering list, new_from) leave every number unchanged by name on one shared list. Names whose text runs together alike (ab + c and a + bc): every ordered pair of one- and two-name lists over ten such names combined one after the other; a number compared with itself answers as against its clone, NaN entries included. Layout differential: five derivative tables (products near the largest double, subnormal products, ordinary, mixed, signed zeros) combined under five layouts (shared list, separate, re-ordered, extra zero-derivative name, both) must give bit-identical results by name for + - * /, the stored half-Hessian included. History independence: on one thread the 65 x 65 ordered pairs of layouts over 4 names are combined (+, *, /, ==) one after the other, forwards and backwards, each operand built fresh. In addition a \
          menu of LARGE layouts (7 .. 17, 33, 63, 64, 65, 70, 130, 257 names, non-dyadic derivative values) x 10 relations of the \
          second list to the first (same, rotated, reversed, every other name, superset, disjoint, overlapping, ends fixed \
          with the middle reversed, thinned and pairwise swapped, interior names replaced by new ones); one first-order pair on 66 000 names and one second-order pair on 1 100 names checked name by name against a dense by-name reference.",
